@@ -9,7 +9,12 @@ import re
 import shutil
 import vcommon as vc
 
-RULE = ("histories of 1-3 sessions (H/V level, SD, GR) on one file, 4-14 building operations per session drawn from "
+RULE = ("histories of 1-3 sessions (H/V level, SD, GR, DFSD) on one file, later sessions EDIT objects of earlier ones (one "
+        "Hwrite into a linked-block element across existing block-table boundaries with new blocks after the crossing, "
+        "vgroup members removed first/middle/last with and without deleting the object, vdata and unlimited data sets "
+        "appended, two unlimited data sets with different record counts, old-style label/unit/format strings with "
+        "empty dimensions, SD attributes and annotations); just before every close the writing session's own reads are "
+        "dumped and must equal h4read's view of the closed bytes; 4-14 building operations per session drawn from "
         "one PRNG (VERIF_SEED): Hputelement, HLcreate with 1-4 writes (block lengths 1..9, table sizes 1..4), appends "
         "that promote an element to linked blocks, HXcreate, HCcreate (none/RLE/n-bit/skipping-Huffman/deflate), "
         "linked blocks written at positions (rewrites, seeks past the end that leave never-written blocks), "
